@@ -23,12 +23,17 @@ Kinds == {s \in UNION {[1 .. n -> {"S", "N"}] : n \in 1 .. 5} :
              /\ Cardinality({i \in DOMAIN s : s[i] = "S"}) \in 1 .. 3
              /\ Cardinality({i \in DOMAIN s : s[i] = "N"}) \in 0 .. 2}
 
-VARIABLES kinds, comment, uni, bad, vols
-Init == kinds = << >> /\ comment = FALSE /\ uni = FALSE /\ bad = {} /\ vols = {}
+\* long file lists: `pad` further entries that are not saved (placed before or after the modelled ones by the
+\* driver); the totals 255, 256, 257 and 300 straddle the 256-entry bound of the format, which counts SAVED
+\* files plus volumes only
+Pads == {0, 252, 253, 254, 297}
+VARIABLES kinds, comment, uni, bad, vols, pad
+Init == kinds = << >> /\ comment = FALSE /\ uni = FALSE /\ bad = {} /\ vols = {} /\ pad = 0
 NSaved(k) == Cardinality({i \in DOMAIN k : k[i] = "S"})
 Next == /\ kinds = << >>
         /\ kinds' \in Kinds /\ comment' \in BOOLEAN /\ uni' \in BOOLEAN
         /\ bad' \in SUBSET (1 .. NSaved(kinds')) /\ vols' \in SUBSET (1 .. NVols)
+        /\ pad' \in (IF ~comment' /\ ~uni' /\ Len(kinds') = 3 THEN Pads ELSE {0})
 
 MinOf(Sx) == CHOOSE x \in Sx : \A y \in Sx : x <= y
 RECURSIVE SortedSeq(_)
@@ -42,7 +47,7 @@ C10_CapacityDecides == kinds # << >> => (Solvable(bad, vols) <=> Cardinality(bad
 
 Emit == IF kinds' # << >>
         THEN PrintT("LAYOUT " \o ToJson([kinds |-> kinds', comment |-> comment', uni |-> uni', bad |-> SortedSeq(bad'),
-                                         vols |-> SortedSeq(vols'), nsaved |-> NSaved(kinds'),
+                                         vols |-> SortedSeq(vols'), nsaved |-> NSaved(kinds'), pad |-> pad',
                                          expect_ok |-> Solvable(bad', vols')]))
         ELSE TRUE
 =============================================================================
